@@ -42,7 +42,7 @@ def _timeouts(draw):
     return out
 
 
-P = Profile(par=0.15, fwd=0.15, durs=GRID, timeouts=_timeouts(), maxdepth=[1, 2, 3], wild=0.1, raises=0.05, max_ops=5, ops=['sleep', 'sleep', 'sleep', 'yield', 'disp', 'disp', 'disp', 'awaitall'], modes=['await', 'await', 'later', 'ff'], actor_ops=['disp', 'disp', 'sleep', 'sleep', 'await', 'dispany', 'idle'], max_actor_ops=6, hist=[None])
+P = Profile(par=0.15, fwd=0.15, durs=GRID, timeouts=_timeouts(), maxdepth=[1, 2, 3], wild=0.1, raises=0.05, max_ops=5, ops=['sleep', 'sleep', 'sleep', 'yield', 'disp', 'disp', 'disp', 'awaitall'], modes=['await', 'await', 'await', 'later', 'later', 'ff', 'ff', 'awaitacc'], actor_ops=['disp', 'disp', 'sleep', 'sleep', 'await', 'dispany', 'idle'], max_actor_ops=6, hist=[None])
 
 
 @st.composite
